@@ -450,12 +450,14 @@ def suite_under_monitor(ctx):
     for k, v in res["events"].items():
         ctx.count("suite:" + k, v)
     ctx.extra["suite_summary"] = res["summary"]
+    ctx.extra["suite_failed_tests"] = res.get("failed_tests")
     for f in res["firings"]:
         if f["property"] != "C26":
             continue
-        ctx.violation({"kind": "suite:" + f["kind"],
+        ctx.violation({"kind": "tree_changed_by_refused_transformation",
                        "mechanism": f.get("mechanism"),
-                       "what": "%s [%s]" % (f["what"], f["test"]),
+                       "what": "suite-under-monitor: %s [%s]" % (
+                           f["what"], f["test"]),
                        "test": f["test"],
                        "dedupe": (f["kind"], f.get("op"),
                                   f.get("transformation"),
